@@ -69,6 +69,15 @@ pub enum It {
     Sorted,
 }
 
+/// One call of an iterator program.
+#[derive(Clone, Copy, Debug, PartialEq, Eq)]
+pub enum St {
+    Next,
+    Back,
+    Nth(usize),
+    NthBack(usize),
+}
+
 /// What a sorted iterator must yield: `Some(true)` = a current maximum, `Some(false)` = a minimum.
 #[derive(Clone, Copy)]
 struct SortedSpec {
@@ -79,7 +88,7 @@ struct SortedSpec {
 fn drive<T>(
     what: &str,
     it: &mut dyn DynIter<T>,
-    prog: &[bool],
+    prog: &[St],
     m: &Model,
     conv: &dyn Fn(&T) -> (Pair, usize, usize),
     sorted: Option<SortedSpec>,
@@ -112,16 +121,41 @@ fn drive<T>(
         }
         Ok(())
     };
-    for (at, &back) in prog.iter().enumerate() {
+    for (at, &st) in prog.iter().enumerate() {
         check_len(it, remaining, at)?;
-        let r = if back {
-            match it.nb() {
+        let back = matches!(st, St::Back | St::NthBack(_));
+        // nth(k) / nth_back(k): k elements are skipped (they are consumed), then one is yielded
+        let skip = match st {
+            St::Nth(k) | St::NthBack(k) => k,
+            _ => 0,
+        };
+        let r = match st {
+            St::Next => it.nx(),
+            St::Nth(k) => it.nth(k),
+            St::Back => match it.nb() {
                 Some(r) => r,
                 None => return Err(format!("{what}: next_back not offered")),
-            }
-        } else {
-            it.nx()
+            },
+            St::NthBack(k) => match it.nth_back(k) {
+                Some(r) => r,
+                None => return Err(format!("{what}: nth_back not offered")),
+            },
         };
+        if skip > 0 {
+            let o = order.expect("nth programs need the forward order");
+            let gone = skip.min(remaining);
+            for _ in 0..gone {
+                let k = if back {
+                    back_ix -= 1;
+                    o[back_ix]
+                } else {
+                    front += 1;
+                    o[front - 1]
+                };
+                yielded.push(k);
+            }
+            remaining -= gone;
+        }
         match r {
             None => {
                 if remaining != 0 {
@@ -134,7 +168,7 @@ fn drive<T>(
                     return Err(format!("{what}: program {prog:?} yielded {pair:?} at call {at} after exhaustion"));
                 }
                 if yielded.contains(&pair.0) {
-                    return Err(format!("{what}: program {prog:?} yielded item {} twice", pair.0));
+                    return Err(format!("{what}: program {prog:?} yielded item {} twice (or after skipping it)", pair.0));
                 }
                 if a1 != 0 && addrs.iter().any(|x| x.0 == a1 || x.1 == a2) {
                     return Err(format!("{what}: program {prog:?} yielded the same element twice (address {a1:#x})"));
@@ -148,8 +182,7 @@ fn drive<T>(
                     let ext = if want_max { rest.max() } else { rest.min() }.unwrap();
                     if pair.2 != ext {
                         return Err(format!(
-                            "{what}: program {prog:?} call {at} ({}) yielded priority {} but the {} of what remains is {ext}",
-                            if back { "next_back" } else { "next" },
+                            "{what}: program {prog:?} call {at} ({st:?}) yielded priority {} but the {} of what remains is {ext}",
                             pair.2,
                             if want_max { "maximum" } else { "minimum" }
                         ));
@@ -165,8 +198,7 @@ fn drive<T>(
                     };
                     if want != pair.0 {
                         return Err(format!(
-                            "{what}: program {prog:?} call {at} ({}) yielded item {} but the {} remaining element of the forward order {o:?} is item {want}",
-                            if back { "next_back" } else { "next" },
+                            "{what}: program {prog:?} call {at} ({st:?}) yielded item {} but the {} remaining element of the forward order {o:?} is item {want}",
                             pair.0,
                             if back { "last" } else { "first" }
                         ));
@@ -183,11 +215,48 @@ fn drive<T>(
     Ok(())
 }
 
-fn programs(len: usize, back: bool) -> Vec<Vec<bool>> {
+fn programs(len: usize, back: bool) -> Vec<Vec<St>> {
     if !back {
-        return vec![vec![false; len]];
+        return vec![vec![St::Next; len]];
     }
-    (0..(1u32 << len)).map(|x| (0..len).map(|i| x >> i & 1 == 1).collect()).collect()
+    (0..(1u32 << len)).map(|x| (0..len).map(|i| if x >> i & 1 == 1 { St::Back } else { St::Next }).collect()).collect()
+}
+
+/// programs that also use nth / nth_back: every prefix of <= 2 plain calls, then one skipping
+/// call with k in {0, 1, 2, n}, then plain calls from both ends until past exhaustion
+fn nth_programs(n: usize, back: bool) -> Vec<Vec<St>> {
+    let mut out = vec![];
+    let plain: Vec<St> = if back { vec![St::Next, St::Back] } else { vec![St::Next] };
+    let mut prefixes: Vec<Vec<St>> = vec![vec![]];
+    for a in &plain {
+        prefixes.push(vec![*a]);
+        for b in &plain {
+            prefixes.push(vec![*a, *b]);
+        }
+    }
+    let mut ks = vec![0, 1, 2, n];
+    ks.dedup();
+    for p in &prefixes {
+        for &k in &ks {
+            let mut skips = vec![St::Nth(k)];
+            if back {
+                skips.push(St::NthBack(k));
+            }
+            for sk in skips {
+                for tail in &plain {
+                    let mut v = p.clone();
+                    v.push(sk);
+                    v.extend(std::iter::repeat(*tail).take(2));
+                    if back {
+                        v.push(St::Next);
+                        v.push(St::Back);
+                    }
+                    out.push(v);
+                }
+            }
+        }
+    }
+    out
 }
 
 /// C13 / C06: every next/next_back program on the non-mutable iterators.
@@ -253,7 +322,11 @@ impl IterPrograms {
             if w != It::Sorted && fwd.len() != n {
                 return Err(format!("{w:?}: a full forward traversal yields {} elements of {n}", fwd.len()));
             }
-            for prog in programs(len, back) {
+            let mut progs = programs(len, back);
+            if w != It::Sorted {
+                progs.extend(nth_programs(n, back));
+            }
+            for prog in progs {
                 cases += 1;
                 match w {
                     It::Iter => {
@@ -378,8 +451,13 @@ impl IterMutPrograms {
         if fwd.len() != n {
             return Err(format!("iter_mut: a full forward traversal yields {} elements of {n}", fwd.len()));
         }
+        let mut all: Vec<Vec<St>> = vec![];
         for len in 0..=(n + self.extra_len) {
-            for prog in programs(len, back) {
+            all.extend(programs(len, back));
+        }
+        all.extend(nth_programs(n, back));
+        {
+            for prog in all {
                 for via_ref in [false, true] {
                     for write in [false, true] {
                         cases += 1;
